@@ -49,6 +49,9 @@ var c13lines = []c13line{
 	{name: "port-0", pairs: `{"ip":"10.0.3.3","port":0}`, addrs: "", cause: "port"},
 	{name: "port-65536", pairs: `{"ip":"10.0.3.3","port":65536}`, addrs: "", cause: "port"},
 	{name: "port-negative", pairs: `{"ip":"10.0.3.3","port":-1}`, addrs: "", cause: "port"},
+	{name: "port-fraction", pairs: `{"ip":"10.0.3.3","port":443.5}`, addrs: "", cause: "json"},
+	{name: "port-decimal-point", pairs: `{"ip":"10.0.3.3","port":8080.0}`, addrs: "", cause: "json"},
+	{name: "port-exponent", pairs: `{"ip":"10.0.3.3","port":8e1}`, addrs: "", cause: "json"},
 	{name: "invalid-json", pairs: `{"ip":"10.0.3.3","port":80`, addrs: `{"ip":"10.0.3.3"`, cause: "json", causeAddrs: "json"},
 	{name: "trailing-junk", pairs: `{"ip":"10.0.3.3","port":80}}`, addrs: `{"ip":"10.0.3.3"}}`, cause: "json", causeAddrs: "json"},
 	{name: "glued-records", pairs: `{"ip":"10.0.3.3","port":80}{"ip":"10.0.3.4","port":80}`, addrs: `{"ip":"10.0.3.3"}{"ip":"10.0.3.4"}`, cause: "json", causeAddrs: "json"},
